@@ -207,6 +207,25 @@ def stale_parent_cases():
             ev = valtrace.observe_tree(root)
             ev["desc"] = {"base": "root with a stale parent pointer", "root": nm, "how": way}
             evs.append(ev)
+    # two "too many" problems next to each other in the walk with nothing reported in between: a metadata element with two
+    # children (the metadata branch reports it), then a parent with a sequence child over its maximum - in both orders
+    for order in ((0, 1), (1, 0), (0, 0, 1), (1, 1, 0)):
+        Node.store.clear()
+        root = Node("zzRootOfTwoOverflows")
+        for k in order:
+            am = Node("additionalMetadata")
+            if k == 0:
+                md = Node("metadata")
+                md.add_child(Node("zzA"))
+                md.add_child(Node("zzB"))
+                am.add_child(md)
+            else:
+                am.add_child(Node("metadata"))
+                am.add_child(Node("metadata"))
+            root.add_child(am)
+        ev = valtrace.observe_tree(root)
+        ev["desc"] = {"base": "adjacent occurrence overflows (metadata with two children / two metadata children)", "order": list(order)}
+        evs.append(ev)
     # parent POINTERS that form a loop although the child lists are a finite tree: a pair turned upside down through the public
     # API (remove_child leaves the child's pointer; the old parent becomes the child's child)
     for outer, inner in (("taxonomicClassification", "taxonomicClassification"), ("metadata", "zzAny")):
